@@ -3,3 +3,4 @@ pub mod c09;
 pub mod c04;
 pub mod c06;
 pub mod c11;
+pub mod c10;
